@@ -147,7 +147,7 @@ def run(prop: str, tier: str, replay: str | None) -> int:
     names: list[str] = []
     discharged = 0
     if build_ok:
-        a = core.audit(prop)
+        a = core.audit(prop, getattr(mod, "AUDIT_PROPS", None))
         names = a["theorems"]
         if a["ok"]:
             discharged = len(names)
@@ -163,9 +163,10 @@ def run(prop: str, tier: str, replay: str | None) -> int:
             if p.returncode != 0:
                 broken.append({"kind": "leanchecker", "what": "leanchecker rejected " + " ".join(targets), "output": p.stdout[-2000:]})
     else:
-        props_file = os.path.join(core.LEAN_DIR, "Aiortc", "Props", f"{prop}.lean")
-        if os.path.exists(props_file):
-            names = core.theorem_names(props_file)
+        for pf in getattr(mod, "AUDIT_PROPS", None) or [prop]:
+            props_file = os.path.join(core.LEAN_DIR, "Aiortc", "Props", f"{pf}.lean")
+            if os.path.exists(props_file):
+                names += core.theorem_names(props_file)
 
     # ---- 4/5. correspondence + oracle ------------------------------------------------------
     comps: list[Component] = mod.components(tier)
